@@ -1,6 +1,7 @@
 mod alloc;
 mod check;
 mod engine;
+mod fam_c17;
 mod families;
 mod generate;
 mod oracles;
@@ -48,10 +49,7 @@ fn main() {
                 "C01" | "C02" | "C03" | "C04" | "C05" | "C06" | "C07" | "C08" | "C09" | "C10" | "C11" | "C12" | "C16" => {
                     check::check::<repl_engine::Repl>(prop, tier, "exploration", serde_json::Value::Null)
                 }
-                _ => {
-                    eprintln!("harness error: no check for {prop}");
-                    2
-                }
+                _ => families::check(prop, tier),
             };
             std::process::exit(code);
         }
